@@ -103,6 +103,24 @@ def main(run):
             kinds.append("framesize")
         lines.append("psize ws " + b[:max(2, hs)].hex())
         kinds.append("framesize")
+    # coap_pdu_parse_size over the token-length extension field itself: TKL 13 with every extension
+    # byte, TKL 14 with every 16-bit extension (thorough) / every value with a boundary byte
+    # (quick), under all four Len forms - only the header bytes are needed
+    edge = (0, 1, 2, 0x7f, 0x80, 0xfd, 0xfe, 0xff)
+    lenforms = [bytes([0x00]), bytes([0xd0, 0x05]), bytes([0xe0, 0x01, 0x02]), bytes([0xf0, 0, 0, 0x01, 0x02])]
+    for lf in lenforms:
+        for e in range(256):
+            h = bytes([lf[0] | 13]) + lf[1:] + bytes([0x01, e])
+            lines.append("psize tcp " + h.hex())
+            kinds.append("framesize")
+        for e in range(65536):
+            if run.tier != "thorough" and (e >> 8) not in edge and (e & 0xff) not in edge:
+                continue
+            if run.tier == "thorough" and lf is not lenforms[0] and (e >> 8) not in edge and (e & 0xff) not in edge:
+                continue
+            h = bytes([lf[0] | 14]) + lf[1:] + bytes([0x01, e >> 8, e & 0xff])
+            lines.append("psize tcp " + h.hex())
+            kinds.append("framesize")
     om, oc, crashes = tie.run_both(model, drv, lines)
     run.cov["driver_crashes"] = len(crashes)
     nbad = 0
